@@ -1,6 +1,7 @@
 package main
 
 import (
+	"golang.org/x/tools/go/ssa"
 	"fmt"
 	"go/ast"
 	"go/constant"
@@ -258,21 +259,13 @@ func spellingTokens(w *World, lexType string, lexPkg string) (map[string]int64, 
 			problems = append(problems, fmt.Sprintf("%q: %s does not return the character itself", ch, m))
 		}
 	}
-	// asterisk
+	// asterisk: the token returned when tokenCanBeOperator() holds
 	if m, _ := armOf('*'); m != "" {
-		cm := w.concreteMethod(lexPkg, lexType, m)
-		fd, cp := w.FuncDecl(cm)
-		tco := w.Method("xpath", "CommonLex", "tokenCanBeOperator")
-		for _, s := range fd.Body.List {
-			if is, ok := s.(*ast.IfStmt); ok {
-				if ce, ok := ast.Unparen(is.Cond).(*ast.CallExpr); ok && calleeOf(cp, ce) == tco {
-					for _, ret := range returnsIn(is.Body) {
-						if v, ok := ConstInt(cp, ret.Results[0]); ok {
-							out["*"] = v
-						}
-					}
-				}
-			}
+		f := w.SSAFunc(w.concreteMethod(lexPkg, lexType, m))
+		toks, probs := lexDecisionTokens(w, f, []rune{0})
+		problems = append(problems, probs...)
+		if v, ok := toks["\x00@op"]; ok {
+			out["*"] = v
 		}
 	}
 	if _, ok := out["*"]; !ok {
@@ -280,34 +273,23 @@ func spellingTokens(w *World, lexType string, lexPkg string) (map[string]int64, 
 	}
 	// relational
 	if m, _ := armOf('='); m != "" {
-		cm := w.concreteMethod(lexPkg, lexType, m)
-		fd, cp := w.FuncDecl(cm)
-		sws := switchesOn(fd.Body, func(e ast.Expr) bool { return objOfIdent(cp, e) == paramObj(cp, fd, 0) })
-		if len(sws) == 1 {
-			for _, a := range switchArms(cp, sws[0]) {
-				if a.Default {
-					continue
-				}
-				rets := returnsIn(a.Clause)
-				for _, c := range a.Consts {
-					ch, _ := intConst(c)
-					for i, ret := range rets {
-						v, ok := ConstInt(cp, ret.Results[0])
-						if !ok {
-							continue
-						}
-						if len(rets) == 1 {
-							out[string(rune(ch))] = v
-						} else if i == 0 && retUnderEqTest(cp, a.Clause, ret) {
-							out[string(rune(ch))+"="] = v
-						} else if i == len(rets)-1 {
-							out[string(rune(ch))] = v
-						}
-					}
-				}
+		f := w.SSAFunc(w.concreteMethod(lexPkg, lexType, m))
+		toks, probs := lexDecisionTokens(w, f, []rune{'=', '<', '>', '!'})
+		problems = append(problems, probs...)
+		for _, ch := range []rune{'=', '<', '>', '!'} {
+			// the spelling "c=" when the next character is '=', "c" otherwise
+			with, ok1 := toks[string(ch)+"="]
+			without, ok2 := toks[string(ch)]
+			if ok1 && ok2 && with == without {
+				out[string(ch)] = with
+				continue
 			}
-		} else {
-			problems = append(problems, "LexRelationalOperator: switch on the character not found")
+			if ok1 {
+				out[string(ch)+"="] = with
+			}
+			if ok2 {
+				out[string(ch)] = without
+			}
 		}
 	}
 	// operator names
@@ -455,4 +437,100 @@ func c03Spelling(w *World, r *Report) {
 	}
 	sort.Strings(names)
 	r.Check(strings.Join(names, ",") == "and,div,mod,or", "R03.8", "operator names", token.NoPos, "and,div,mod,or", "operator-name table is {"+strings.Join(names, ",")+"}")
+}
+
+// lexDecisionTokens reads a lexer method (c rune) (int, TokVal) as a decision
+// table: which constant token it returns for first character c, depending on
+// whether the next character read is '=' (key c+"=") or not (key c), and on
+// tokenCanBeOperator() (keys with "@op" appended when the result depends on
+// it and it holds).  if/switch forms and helpers that read the next character
+// give the same table.
+func lexDecisionTokens(w *World, f *ssa.Function, chars []rune) (map[string]int64, []string) {
+	out := map[string]int64{}
+	var problems []string
+	if f == nil || f.Blocks == nil {
+		return out, []string{"lexer method without body"}
+	}
+	if len(ssaLoops(f)) > 0 {
+		return out, []string{f.Name() + ": has a loop, not read as a decision table"}
+	}
+	sym := NewSym(w)
+	rows := sym.retTable(f, 0)
+	isNextCall := func(v ssa.Value) bool {
+		c, ok := v.(*ssa.Call)
+		if !ok {
+			return false
+		}
+		if c.Call.IsInvoke() {
+			return c.Call.Method.Name() == "Next"
+		}
+		return c.Call.StaticCallee() != nil && c.Call.StaticCallee().Name() == "Next"
+	}
+	isCanBeOp := func(v ssa.Value) bool {
+		c, ok := v.(*ssa.Call)
+		return ok && !c.Call.IsInvoke() && c.Call.StaticCallee() != nil && c.Call.StaticCallee().Name() == "tokenCanBeOperator"
+	}
+	for _, ch := range chars {
+		for _, eq := range []bool{true, false} {
+			for _, op := range []bool{true, false} {
+				usesEq, usesOp := false, false
+				var got []int64
+				bad := ""
+				for _, row := range rows {
+					v, ok, und := pcEvalUnder(row.cond, func(a *pcAtom) (bool, bool) {
+						if a.subj == "p1" && len(f.Params) > 1 {
+							return a.set.contains(int64(ch)), true
+						}
+						if cmp, ok := a.v.(*ssa.BinOp); ok && a.subj != "" && (isNextCall(cmp.X) || isNextCall(cmp.Y)) {
+							usesEq = true
+							if eq {
+								return a.set.contains('='), true
+							}
+							// some other character: none of the ones tested for
+							return false, true
+						}
+						if isCanBeOp(a.v) {
+							usesOp = true
+							return op, true
+						}
+						return false, false
+					})
+					if !ok {
+						bad = und
+						continue
+					}
+					if v {
+						if k, isInt := intConstOf(row.val); isInt {
+							got = append(got, k)
+						} else {
+							got = append(got, -1)
+						}
+					}
+				}
+				if bad != "" {
+					problems = append(problems, fmt.Sprintf("%s: the token for %q depends on %s", f.Name(), ch, bad))
+					continue
+				}
+				if len(got) != 1 {
+					problems = append(problems, fmt.Sprintf("%s: %d exits for %q (next is '=': %v)", f.Name(), len(got), ch, eq))
+					continue
+				}
+				key := string(ch)
+				if eq {
+					key += "="
+				}
+				if op && usesOp {
+					key += "@op"
+				}
+				if !op && usesOp {
+					key += "@nop"
+				}
+				_ = usesEq
+				if got[0] >= 0 {
+					out[key] = got[0]
+				}
+			}
+		}
+	}
+	return out, problems
 }
